@@ -120,7 +120,7 @@ def check_case(case, res):
     tol = 1e-9 * scale
     exs = [ex_of(fam, r) for r, _ in items]
     valid = all(xinside(e, die_ex) for e in exs) and all(xinter(a, b) is None for a, b in itertools.combinations(exs, 2))
-    attrs = dict(fam=fam, valid=valid, n=len(items), exact=fam in ('INT', 'HALF'),
+    attrs = dict(fam=fam, valid=valid, n=len(items), terminals_only=bool(case.get('terminals_only')), exact=fam in ('INT', 'HALF'),
                  touches_border=any(e[2] == die_ex[2] or e[3] == die_ex[3] for e in exs),
                  has_fixed=any(k == 'fixed' for _, k in items))
     # ---- build the description
@@ -130,6 +130,9 @@ def check_case(case, res):
         tree['regions'] = regions
     fixed = [e for e, (_, k) in zip(exs, items) if k == 'fixed']
     netlist = None
+    if case.get('terminals_only') and not fixed:
+        # a design whose netlist has only terminals (no dimensions at all) attached to the die
+        netlist = Netlist({'Modules': {'T1': {'terminal': True, 'center': [0, 0]}, 'T2': {'terminal': True}}, 'Nets': [['T1', 'T2']]})
     if fixed:
         mods = {}
         if case.get('one_module') and len(fixed) == 2:
@@ -266,6 +269,9 @@ def run_shard(shard, tier, res):
                 for one in variants:
                     reset_frame_state()
                     check_case(dict(fam=fam, W=W, H=H, items=items, one_module=one), res)
+                if k == 1 and kinds[0] != 'fixed':
+                    reset_frame_state()
+                    check_case(dict(fam=fam, W=W, H=H, items=items, one_module=False, terminals_only=True), res)
     res.samples.append(dict(fam=fam, W=W, H=H, items=[[list(a), 'dsp']]))
 
 
